@@ -55,7 +55,7 @@ SCENARIOS = {
     "three_tags_each": {"input": [("S1", "FGF", (40, 5, 30)), ("S2", "FF", (20, 25))], "tf": 3,
                         "groups": [("Scaffold_1", [("S1", 1, 75, 1, ("Painted", "Hap1", "X"))]), ("Scaffold_2", [("S2", 1, 45, -1, ("Painted", "Hap1", "Singleton"))])]},
     "cut_unloc_haplotig": {"input": [("S1", "FGF", (40, 5, 30)), ("S2", "F", (33,))], "tf": 2,
-                           "groups": [("Scaffold_1", [("S1", 1, 42, 1, ("Painted", "Z")), ("S1", 43, 75, -1, ("Painted", "Unloc", "Z"))]), ("Scaffold_2", [("S2", 1, 33, 1, ("Haplotig", "Painted"))])]},
+                           "groups": [("Scaffold_1", [("S1", 1, 60, 1, ("Painted", "Z", "Hap1")), ("S1", 61, 75, -1, ("Painted", "Unloc", "Z", "Hap1"))]), ("Scaffold_2", [("S2", 1, 33, 1, ("Haplotig", "Painted"))])]},
     "same_haplotype_two_spellings": {"input": [("S1", "F", (40,)), ("S2", "F", (30,))], "tf": 2,
                                      "groups": [("Scaffold_1", [("S1", 1, 40, 1, ("Painted", "Hap1")), ("S2", 1, 30, 1, ("Painted", "HAP1"))])]},
     "two_haplotypes_one_scaffold": {"input": [("S1", "F", (40,)), ("S2", "F", (30,))], "tf": 2,
